@@ -1,12 +1,15 @@
 (* C16 -- the Thrift IDL parser is total on arbitrary text.
-   Only statements, each closed by [exact] of a lemma proved in Proofs/Total.v, with Print Assumptions beneath.
+   Only statements, each closed by [exact] of a lemma proved in Proofs/, with Print Assumptions beneath.
    [parse_file s] is the Gallina port of [File::parse] (Parser.v); its outcome type has, besides nom's three results,
-   [PPanic] (a Rust panic: an unwrap on a failed conversion) and [PFuel] (loop / depth fuel exhausted). *)
-From PVIdl Require Import Comb Ast Parser Proofs.Total.
+   [PPanic] (a Rust panic: an unwrap on a failed conversion) and [PFuel] (loop / depth fuel exhausted).
+   [p_file lf df] is the same parser with explicit loop fuel [lf] (handed to every nom loop) and depth fuel [df],
+   decremented exactly where the Rust code recurses natively: Ty::parse -> Type::parse -> Ty::parse and
+   ConstValue::parse -> ConstValue::parse; [parse_file s = p_file (|s|+1) (|s|+1) s]. *)
+From PVIdl Require Import Comb Ast Parser Proofs.Nesting Proofs.Total.
 
 (* on every byte string (a superset of all &str) the parser returns a parse result, a recoverable error or a
-   failure: never a panic, and the fuel [length s + 1] handed to every loop and to the native recursion never
-   runs out *)
+   failure: never a panic (the i32 / i64 conversions are modelled with their real ranges), and the fuel
+   [length s + 1] never runs out *)
 Theorem C16_total : forall s : list byte,
   match parse_file s with
   | POk _ _ | PErr _ _ | PFail _ _ => True
@@ -14,3 +17,23 @@ Theorem C16_total : forall s : list byte,
   end.
 Proof. exact parse_total. Qed.
 Print Assumptions C16_total.
+
+(* the logic half of the stack claim: the native recursion is never deeper than [nesting s + 1] activations of the
+   Ty / ConstValue knots, where [nesting s] (Proofs/Nesting.v: a seven-state scanner that skips the three comment
+   styles and the two quote styles) is the deepest nesting of '<' '[' '{' against '>' ']' '}' in s: depth fuel above
+   the nesting is never exhausted (c = 1 knot activation per level, c' = 1).  The bytes of stack per activation are
+   measured by the harness (pv/props/c16.py, evidence stack_probe). *)
+Theorem C16_depth : forall (lf df : nat) (s : list byte),
+  (length s < lf)%nat -> (nesting s < Z.of_nat df)%Z ->
+  match p_file lf df s with
+  | POk _ _ | PErr _ _ | PFail _ _ => True
+  | PPanic _ | PFuel _ => False
+  end.
+Proof. exact parse_depth_bound. Qed.
+Print Assumptions C16_depth.
+
+(* the nesting of a text is at most its length (so that C16_total is the instance df = |s|+1 of C16_depth) and
+   never negative *)
+Theorem C16_nesting_range : forall s : list byte, (0 <= nesting s <= Z.of_nat (length s))%Z.
+Proof. exact nesting_range. Qed.
+Print Assumptions C16_nesting_range.
